@@ -125,8 +125,8 @@ def ensure_big(objs):
     return objs
 
 
-def case_strategy(tier):
-    def build(size_class):
+def sized_case_strategy(size_class):
+    if True:
         return st.fixed_dictionaries({
             "size": st.just(size_class),
             "objs": st.lists(st.fixed_dictionaries({
@@ -141,7 +141,10 @@ def case_strategy(tier):
             "cfg": cfg_strategy().map(lambda c: dict(c, G=None)) if size_class == "large" else cfg_strategy(),
             "cfg2": cfg_strategy(),
         })
-    return st.sampled_from(["small"] * 11 + ["mid"] * 4 + ["large"]).flatmap(build)
+
+
+def case_strategy(tier):
+    return st.sampled_from(["small"] * 11 + ["mid"] * 4 + ["large"]).flatmap(sized_case_strategy)
 
 
 # ------------------------------------------------------------------------------------------------
